@@ -378,15 +378,51 @@ end
   the environment.  What remains at policy level is the property's own premise: keep / drop soundness is claimed for
   environments with UNKNOWNS; ignore markers only promise widening (`C06_partial_ignore_widens_partial`). -/
 
+/-- no key occurs twice in the entry list of a record literal -/
+def keysNodup : List (String × Expr) → Bool
+  | [] => true
+  | (k, _) :: rest => !(rest.any (fun kv => kv.1 == k)) && keysNodup rest
+
+mutual
+/-- Every record literal of the expression (at every depth) lists each key once: what the text parser accepts
+    (`duplicate key`), what the JSON decoder (a Go map) and the builder `ast.Record` (a later duplicate replaces the
+    earlier entry) produce.  Only a hand-written `ast.NodeTypeRecord{Elements: …}` can repeat a key; for such a node
+    `partial` (which visits EVERY element) and `Eval` (which evaluates the map built by `ToEval`: the last entry of
+    each key) look at different entries, so the soundness statements are about expressions with this property. -/
+def Expr.recKeysDistinct : Expr → Bool
+  | .lit _ => true
+  | .var _ => true
+  | .unop _ e => e.recKeysDistinct
+  | .binop _ l r => l.recKeysDistinct && r.recKeysDistinct
+  | .ite c t e => c.recKeysDistinct && t.recKeysDistinct && e.recKeysDistinct
+  | .access e _ => e.recKeysDistinct
+  | .has e _ => e.recKeysDistinct
+  | .like e _ => e.recKeysDistinct
+  | .is e _ => e.recKeysDistinct
+  | .isIn e _ r => e.recKeysDistinct && r.recKeysDistinct
+  | .set es => recKeysDistinctL es
+  | .record kes => keysNodup kes && recKeysDistinctKVs kes
+  | .call _ args => recKeysDistinctL args
+def recKeysDistinctL : List Expr → Bool
+  | [] => true
+  | e :: es => e.recKeysDistinct && recKeysDistinctL es
+def recKeysDistinctKVs : List (String × Expr) → Bool
+  | [] => true
+  | (_, e) :: kes => e.recKeysDistinct && recKeysDistinctKVs kes
+end
+
+def Policy.recKeysDistinct (p : Policy) : Bool := p.conditions.all fun c => c.2.recKeysDistinct
+
 def PR.notIgn : PR → Bool
   | .ign => false
   | _ => true
 
 /-- no ignore marker is met: no request part is ignored and no condition's partial evaluation reports `errIgnore`
-    (an ignore marker nested inside the context or an entity's attributes) -/
+    (an ignore marker nested inside the context or an entity's attributes); and the conditions are expressions a parser,
+    decoder or builder can produce (`Expr.recKeysDistinct`) -/
 def partialDomain (env : Env) (p : Policy) : Bool :=
   !env.principal.isIgnore && !env.action.isIgnore && !env.resource.isIgnore &&
-    p.conditions.all fun c => (partialE env c.2).notIgn
+    p.conditions.all fun c => (partialE env c.2).notIgn && c.2.recKeysDistinct
 
 /-- the completed environment: unknowns in the four request parts replaced; the store is untouched -/
 def completeEnv (σ : String → Value) (env : Env) : Env :=
